@@ -105,7 +105,7 @@ Print Assumptions C01_window_decode_is_spec.
 Theorem C01_chunk_roundtrip :
   forall c h hist w syms evs c' h' t0 tail n,
   no_end syms -> hist_rel h hist -> data_ok h -> reps_nonneg c ->
-  h_dict h <= 2147483648 -> h_dict h <= w_size w ->
+  h_dict h <= 2147483648 -> (h_dict h <= w_size w \/ h_total h - h_base h <= w_size w) ->
   enc_syms c h syms = Ok (evs, c', h') ->
   probs_ok t0 -> events_bits evs <= RC_MAX_BITS ->
   Rel w hist -> coder_ok c (w_full w) -> w_pending_len w = 0 ->
@@ -129,7 +129,7 @@ Example C01_chunk_example :
   exists evs c' h',
     enc_syms c h [SLit 97; SLit 98; SMatch 1 5] = Ok (evs, c', h') /\
     no_end [SLit 97; SLit 98; SMatch 1 5] /\ hist_rel h [] /\ data_ok h /\ reps_nonneg c /\
-    h_dict h <= 2147483648 /\ h_dict h <= w_size w /\ events_bits evs <= RC_MAX_BITS /\
+    h_dict h <= 2147483648 /\ (h_dict h <= w_size w \/ h_total h - h_base h <= w_size w) /\ events_bits evs <= RC_MAX_BITS /\
     Rel w [] /\ coder_ok c (w_full w) /\ w_pending_len w = 0 /\
     Z.of_nat 7 = h_pos h' - h_pos h /\ w_limit w = w_pos w + Z.of_nat 7.
 Proof.
@@ -145,7 +145,7 @@ Proof.
   split; [split; [reflexivity|]; split; [vm_compute; discriminate|]; intros d Hd; unfold zlen in Hd; cbn [length Z.of_nat] in Hd; lia|].
   split; [apply data_ok_new; reflexivity|].
   split; [unfold reps_nonneg, coder_new; cbn; lia|].
-  split; [vm_compute; discriminate|]. split; [vm_compute; discriminate|]. split; [exact Hbits|].
+  split; [vm_compute; discriminate|]. split; [left; vm_compute; discriminate|]. split; [exact Hbits|].
   destruct (set_limit_rel (lzwin_new 4096 None) [] 7 (lzwin_new_rel 4096 ltac:(reflexivity) ltac:(reflexivity)) ltac:(discriminate)) as (HR & _).
   split; [exact HR|].
   split; [unfold coder_ok, params_ok, reps_nonneg, coder_new; cbn [c_lc c_lp c_pb c_state c_rep0 c_rep1 c_rep2 c_rep3]; repeat split; try lia; intros X; vm_compute in X; discriminate|].
